@@ -150,6 +150,11 @@ class MapGen:
             fl = rng.randrange(0, 64) if form == "editor" else rng.choice([0, 63, rng.randrange(0, 65536)])
             locs[slot] = {"_left_x1": rng.randrange(0, 4096), "_top_y1": rng.randrange(0, 4096), "_right_x2": rng.randrange(0, 8192), "_bottom_y2": rng.randrange(1, 8192),
                           "_string_id": sref(), "_elevation_flags": fl}
+        if variant != "mrgn-full":
+            # one location WITHOUT a name (string id 0) on the lowest free slot: protected / string-optimised maps have
+            # them; it is a location like any other (no random draw: the stream of the other choices is unchanged)
+            low = next(i for i in range(1, nslots + 1) if i not in locs and i != 64)
+            locs[low] = {"_left_x1": 320, "_top_y1": 352, "_right_x2": 448, "_bottom_y2": 480, "_string_id": 0, "_elevation_flags": 0}
         zero_loc = {k: 0 for k in ["_left_x1", "_top_y1", "_right_x2", "_bottom_y2", "_string_id", "_elevation_flags"]}
         mrgn = refchk.build(L[b"MRGN"], {"records": [locs.get(i + 1, zero_loc) for i in range(nslots)]})
         # ---- UPRP / UPUS
